@@ -3,6 +3,7 @@ package logdb
 //vcheck:init github.com/lni/dragonboat/v4/internal/settings,github.com/lni/dragonboat/v4/raftpb,github.com/lni/dragonboat/v4/internal/logdb
 
 import (
+	"github.com/lni/dragonboat/v4/raftio"
 	"github.com/cockroachdb/errors"
 
 	"github.com/lni/dragonboat/v4/internal/logdb/kv"
@@ -169,7 +170,7 @@ func (k *vFailStore) FullCompaction() error                                { ret
 // snapshot import, bootstrap record - during which the KV store fails call
 // number k.  The operation reports the failure (error or panic); it never
 // returns success.
-//vcheck: reach=injected,not-reached,save,snapshots,remove-entries,remove-node,import,bootstrap,cold,warm,done workers=16 allow="injected kv error"
+//vcheck: reach=injected,not-reached,save,snapshots,remove-entries,remove-node,import,bootstrap,cold,warm,recovered-with-entries,done workers=16 allow="injected kv error"
 func VHarness_C10_EveryOperationErrProp() {
 	batched := vBool("batched")
 	batchSize = 4
@@ -226,6 +227,37 @@ func VHarness_C10_EveryOperationErrProp() {
 	} else {
 		vReach("not-reached")
 		vAssert(err == nil, "operation-ok-without-a-fault")
+	}
+	// the failed call is also where the process may have died: what the calls
+	// before it left in the store must be readable by a restarted replica - the
+	// replica is gone (no saved log) or its log ends where its recorded end says
+	if fs.failed {
+		d2 := vOpenDB(fs, batched)
+		ssIndex := uint64(0)
+		if ss, e := d2.getSnapshot(1, 1); e == nil {
+			ssIndex = ss.Index
+		}
+		readable := true
+		var rs raftio.RaftState
+		var rerr error
+		func() {
+			defer func() {
+				if r := recover(); r != nil {
+					readable = false
+				}
+			}()
+			rs, rerr = d2.readRaftState(1, 1, ssIndex)
+		}()
+		vAssert(readable, "store-left-by-an-interrupted-operation-is-readable-after-restart")
+		if readable && rerr == nil && rs.EntryCount > 0 {
+			ents, _, ierr := d2.iterateEntries(nil, 0, 1, 1, rs.FirstIndex, rs.FirstIndex+rs.EntryCount, 1<<40)
+			vAssert(ierr == nil && uint64(len(ents)) == rs.EntryCount, "recovered-log-ends-where-its-recorded-end-says")
+			vReach("recovered-with-entries")
+		}
+		if readable && rerr != nil {
+			vAssert(rerr == raftio.ErrNoSavedLog, "absent-replica-reports-no-saved-log")
+			vReach("recovered-absent")
+		}
 	}
 	vReach("done")
 }
